@@ -584,7 +584,7 @@ def emit_lean(layout, ns, outdir):
 
     # ---- Misc
     misc = layout["misc"]
-    out = ["import TpmModel.Prim", f"/-! generated by tools/translate.py — do not edit -/", f"namespace {ns}", ""]
+    out = ["import TpmModel.Prim", "import TpmModel.Front", f"/-! generated by tools/translate.py — do not edit -/", f"namespace {ns}", ""]
     cap = misc["cache_capacity"]
     if cap == "unbounded":
         capl = ".unbounded"
@@ -603,6 +603,9 @@ def emit_lean(layout, ns, outdir):
     out.append(f"def swtpmCtrlMarker : String := {lstr(sw['CTRL_MARKER'])}")
     out.append(f"def swtpmValidHex : String := {lstr(sw['VALID_HEX'])}")
     out.append(f"def swtpmValidWs : String := {lstr(sw['VALID_WS'])}")
+    def blist(t):
+        return "[" + ", ".join(str(ord(ch)) for ch in t) + "]"
+    out.append(f"def swtpmConsts : SwtpmConsts := ⟨{blist(sw['CMD_MARKER'])}, {blist(sw['CTRL_MARKER'])}, {blist(sw['VALID_HEX'])}, {blist(sw['VALID_WS'])}⟩")
     out.append("def swtpmStates : List Nat := [" + ", ".join(str(s) for s in sw["states"]) + "]")
     out.append("def autoBytesConstants : List String := [" + ", ".join(lstr(s) for s in misc["auto_bytes_constants"]) + "]")
     for k, v in misc["skips"].items():
